@@ -85,8 +85,13 @@ def gen_seq(n, depth, tier):
                 yield first + "," + rest
 
 
+# expressions beyond the atom bound that combine the same construct twice (several '^' paths, several parent() steps, repeated dots)
+EXTRA = ["^a,^b", "^b,^a", "^a.b,^b.a", "^a*,^b", "a,^b", "(^a),(^b)", "^a,^b,^n", "parent(T).a,parent(T).b", "..a,..b", "(^a,^b)*", "^b.a,^a.b", "~a.(^b),^b"]
+
+
 def texts(tier):
-    seen = set()
+    seen = set(EXTRA)
+    yield from EXTRA
     for nav, N, D in SPACES[tier]:
         _NAV[0] = nav
         for n in range(1, N + 1):
@@ -141,7 +146,7 @@ def models():
     return _MODELS
 
 
-NAMES = ["a", "a.b", "n.a", "b.n.a"]
+NAMES = ["a", "b", "a.b", "n.a", "b.n.a"]
 
 
 def evaluate(tree, flagged_proxy):
@@ -217,6 +222,50 @@ def run_case(text, with_eval=True):
     return True, {"text": text, "printed": printed}
 
 
+EMBED_NAVS = ["a", "~b", "'n'~a", "'x\\\\ny'~a", "'t\\\\t'~b", '"q\'r"~a', "'\\\\x41'~b"]
+
+
+def embed_texts():
+    """RREL texts for the round trip through a GRAMMAR (the expression is read by the grammar visitor, not by rrel.parse): fixed names
+    with backslash sequences, which the grammar keeps verbatim"""
+    out = []
+    for x in EMBED_NAVS:
+        out += [x, x + ".a", "b," + x, "(" + x + ")*.b", "^" + x if not x.startswith(("'", '"')) else x + ".~a"]
+    return [f + t for t in dict.fromkeys(out) for f in ("", "+p:", "+mp:")]
+
+
+def run_embedded(text):
+    from textx import metamodel_from_str
+
+    g = "M: 'T' name=ID ('->' r=[M:ID|%s])? ('{' a*=M b*=M '}')?;"
+    def tree_of(rrel):
+        sp = metamodel_from_str(g % rrel)["M"]._tx_attrs["r"].scope_provider
+        sp = getattr(sp, "scope_provider", sp)  # '+m:' wraps the RREL provider in an ImportURI provider
+        return sp.rrel_tree
+    t1 = tree_of(text)
+    printed = str(t1)
+    try:
+        t2 = tree_of(printed)
+    except Exception as e:
+        return False, {"text": text, "printed": printed, "embedded": True, "reparse_error": "%s: %s" % (type(e).__name__, str(e)[:100])}
+    s1, s2 = struct(t1), struct(t2)
+    if s1 != s2:
+        return False, {"text": text, "printed": printed, "embedded": True, "struct": s1, "reparsed_struct": s2}
+    return True, {"text": text, "printed": printed, "embedded": True}
+
+
+def work_embedded(chunk):
+    u = Unit()
+    for text in chunk:
+        with watchdog(20):
+            ok, obs = run_embedded(text)
+        u.case(["embedded", text], nontrivial=True, sample=obs)
+        u.count("grammar-embedded round trip")
+        if not ok:
+            u.fail(["embedded", text], {"text": text, "embedded": True}, sig="embedded", what="in a grammar %r prints as %r: %s" % (text, obs.get("printed"), str(obs)[:200]))
+    return u
+
+
 def work(arg):
     tier, chunk = arg
     u = Unit()
@@ -236,6 +285,8 @@ def run(ctx):
     bodies = list(texts(ctx.tier))
     B = 50
     ctx.pmap(work, [(ctx.tier, bodies[i:i + B]) for i in range(0, len(bodies), B)])
+    et = embed_texts()
+    ctx.pmap(work_embedded, [et[i:i + 10] for i in range(0, len(et), 10)])
     return {
         "rule": "all RREL texts derivable from the RREL grammar in the union of spaces (navigation alphabet, max atoms, max bracket "
                 "depth) = %s, each with every flag prefix %s; atoms = navigation/parent/dots/^ elements; "
@@ -247,5 +298,7 @@ def run(ctx):
 
 
 def replay(payload):
+    if payload.get("embedded"):
+        return run_embedded(payload["text"])
     ok, obs = run_case(payload["text"])
     return ok, obs
